@@ -574,7 +574,7 @@ theorem setValues_raised {now : DateTime} {s : PropState} {inp : Inp} {e : Exc}
   · simp [he] at h
   · simp only [he] at h ⊢
     cases hnv : convertValueInput inp with
-    | nil => rfl
+    | nil => simp [hnv] at h
     | cons v0 rest =>
       simp only [hnv] at h ⊢
       by_cases hval : validate now (inferIfNone s.dtype v0)
@@ -593,7 +593,9 @@ theorem setValues_ok {now : DateTime} (hn : now.valid = true) {s : PropState} {i
     exact ⟨hd, fun _ => rfl, fun v hv => by cases hv⟩
   · simp only [he] at h ⊢
     cases hnv : convertValueInput inp with
-    | nil => simp [hnv] at h
+    | nil =>
+      simp only [Bool.false_eq_true, ↓reduceIte]
+      exact ⟨hd, fun _ => rfl, fun v hv => by cases hv⟩
     | cons v0 rest =>
       simp only [hnv] at h ⊢
       by_cases hval : validate now (inferIfNone s.dtype v0)
@@ -1225,7 +1227,7 @@ theorem setValues_ok_dtype {now : DateTime} {s : PropState} {inp : Inp}
   · simp [he]
   · simp only [he] at h ⊢
     cases hnv : convertValueInput inp with
-    | nil => simp [hnv] at h
+    | nil => simp
     | cons v0 rest =>
       simp only [hnv] at h ⊢
       have hd : inferIfNone s.dtype v0 = s.dtype := by
